@@ -112,7 +112,7 @@ def run_cell(shape, plan, prep=None, iodebug=False, prelude=None, platform="ledg
         dev.unlocked = True
     if prep:
         prep(dev)
-    with Stack(dev, version_one=shape.v1, iodebug=iodebug) as s:
+    with Stack(dev, version_one=shape.v1, iodebug=iodebug, loglevel="DEBUG") as s:
         s.initialize()
         if prelude is not None:
             if prelude.post:
@@ -276,7 +276,7 @@ def check_sgx_locked_repair(acc, shape, allowed):
         for sw in SGX_SYSTEM_SWS:
             dev = fl.make_device(shape, platform="sgx")
             dev.unlocked = True
-            with Stack(dev) as s:
+            with Stack(dev, loglevel="DEBUG") as s:
                 s.bus.tcp_faults_as_hid = True
                 s.initialize()
                 s.bus.arm({0: Fault("read_error")})
@@ -309,7 +309,7 @@ def check_streak(acc, shape, roles, allowed):
     for k in sorted({0, len(roles) // 2, len(roles) - 1}):
         for sw in (0x6A8F, 0x6B10, 0x6A87, 0x6B90):
             dev = fl.make_device(shape)
-            with Stack(dev) as s:
+            with Stack(dev, loglevel="DEBUG") as s:
                 s.initialize()
                 codes = []
                 for rep in range(10):
@@ -342,7 +342,7 @@ def check_repair_cell(acc, shape, k, sw, allowed):
     k-th bring-up exchange is answered with status sw"""
     from ..stack import Stack
     dev = fl.make_device(shape)
-    with Stack(dev) as s:
+    with Stack(dev, loglevel="DEBUG") as s:
         s.initialize()
         if shape.post:
             shape.post(dev)
